@@ -1281,9 +1281,14 @@ func (s *Stage) buildCache(from time.Time) {
 			first = t
 		}
 		path := filepath.Join(s.rootDir, name)
-		if _, ok := s.cache[path]; ok {
-			// Skip it if the file is already in the cache
-			return false
+		if existing, ok := s.cache[path]; ok {
+			// Skip it if the file is already in the cache--unless that is an
+			// earlier record of the same name loaded from the log: records
+			// are read in the order they were written, and the version put
+			// away last is the one to remember
+			if existing.state != stateLogged || existing.logged.After(t) {
+				return false
+			}
 		}
 		file := &finalFile{
 			path:    path,
